@@ -722,12 +722,39 @@ pub fn check_image(wk: &mut crate::corrupt::WorkerHandle, scratch: &Path, cfg: &
     wk.run_image(&dir, cfg)
 }
 
+fn has_ingest(op: &Op) -> bool {
+    match op {
+        Op::Ingest { items } => !items.is_empty(),
+        Op::Seq { ops } => ops.iter().any(has_ingest),
+        _ => false,
+    }
+}
+
+/// `D_0..D_n` (clean reopen after each prefix) plus, for every ingestion op `k`, the state "everything
+/// written before op k, flushed": an ingestion first flushes the memtables, which is a durable step of
+/// its own; a crash after it shows all earlier acknowledged writes and nothing of the batch.
+/// Returns (dumps, for each op the index of its extra dump if any).
+pub fn dumps_for(cfg: &TreeCfg, ops: &[Op], root: &Path) -> Result<(Vec<Vec<String>>, Vec<Option<usize>>), String> {
+    let (_, mut dumps) = clean_run(cfg, ops, root)?;
+    let mut extra = vec![None; ops.len()];
+    for (k, op) in ops.iter().enumerate() {
+        if has_ingest(op) {
+            let mut pre: Vec<Op> = ops[..k].to_vec();
+            pre.push(Op::Flush { w: crate::ops::Wm::Zero });
+            let (_, d) = clean_run(cfg, &pre, root)?;
+            dumps.push(d.last().cloned().unwrap_or_default());
+            extra[k] = Some(dumps.len() - 1);
+        }
+    }
+    Ok((dumps, extra))
+}
+
 /// Traces one history and enumerates its crash images.
 fn prepare_history(h: CrashHistory, root: &Path, tier: &str) -> Result<(Vec<ImgJob>, u64, u64, u64, serde_json::Value), String> {
     let mut jobs: Vec<ImgJob> = vec![];
     let (mut n_cuts, mut n_images, mut cap_hits) = (0u64, 0u64, 0u64);
     let _ = &mut n_images;
-        let (_, reopen) = match clean_run(&h.cfg, &h.ops, root) {
+        let (reopen, extra_dump) = match dumps_for(&h.cfg, &h.ops, root) {
             Ok(x) => x,
             Err(e) => return Err(e),
         };
@@ -815,8 +842,12 @@ fn prepare_history(h: CrashHistory, root: &Path, tier: &str) -> Result<(Vec<ImgJ
                 }
                 let allowed: Vec<usize> = if !opened {
                     vec![0]
-                } else if cur_op.is_some() {
-                    vec![done_ops, done_ops + 1]
+                } else if let Some(k) = cur_op {
+                    let mut a = vec![done_ops, done_ops + 1];
+                    if let Some(Some(x)) = extra_dump.get(k) {
+                        a.push(*x);
+                    }
+                    a
                 } else {
                     vec![done_ops]
                 };
@@ -988,7 +1019,7 @@ pub fn run(tier: &str, threads: usize, max_wall_s: f64, leftover_mode: bool) -> 
                     let ans: Vec<String> = serde_json::from_str::<ImgAnswer>(ans).unwrap_or_default().ans;
                     let which = j.allowed.iter().position(|k| j.dumps.get(*k) == Some(&ans));
                     match which {
-                        Some(0) if j.allowed.len() == 2 => {
+                        Some(0) if j.allowed.len() >= 2 => {
                             ok_before.fetch_add(1, Ordering::Relaxed);
                         }
                         Some(_) => {
@@ -1072,9 +1103,9 @@ pub fn replay(rp: &CrashReplay) -> String {
         }
     } else if let Some(ans) = r.strip_prefix("ANS ") {
         let ans: Vec<String> = serde_json::from_str::<ImgAnswer>(ans).unwrap_or_default().ans;
-        match clean_run(&rp.cfg, &rp.ops, &root) {
+        match dumps_for(&rp.cfg, &rp.ops, &root) {
             Err(e) => format!("HARNESS {e}"),
-            Ok((_, dumps)) => {
+            Ok((dumps, _)) => {
                 if rp.allowed.iter().any(|k| dumps.get(*k) == Some(&ans)) {
                     "OK".to_string()
                 } else {
